@@ -30,6 +30,7 @@ func runC06(r *engine.Run) {
 	r.Rule("FRESH-write", "in TransactionCache.Set, BlockCache.Set and BlockCache.setValue every entry stored into the pending map carries in its data field the result of a Clone() call (provenance dataflow over the local entry), never the previous entry's object refreshed in place")
 	r.Rule("DOM-txreset", "Commit hands the pending writes to the block cache and then empties the transaction's pending map: every return of TransactionCache.Commit is dominated by a store of a new map into the field (or clear / delete of every iterated key) that comes after the hand-over loop. Entries left behind keep answering as own uncommitted writes and are pushed again by the next Commit")
 	r.Rule("DOM-commitall", "inside StateCache.commit's loop over the block's pending map, the next iteration is not reachable without adding the entry to the key's versions map: no write or tombstone of the block is skipped")
+	r.Rule("LOCK-commit", "see C08: every write into the key->versions map, a per-key versions map or the block-link map that is reachable from StateCache.commit happens with StateCache.lock held (two committers must not create a key's versions map side by side)")
 	r.NotDec = append(r.NotDec,
 		"hit ratio after LRU eviction (capacity arithmetic)", "equality with the block-tree oracle for every history")
 	whoReadOnly(r, "WHO-readonly")
@@ -49,6 +50,7 @@ func runC06(r *engine.Run) {
 	if commit := r.Fn("ORDER-publish", pkgSC, "StateCache", "commit"); commit != nil {
 		orderPublish(r, commit)
 	}
+	lockCommitOnly(r, "LOCK-commit")
 }
 
 // lruCallOnField matches c = (*lru.Cache).<method>(load of <recvType>.<field>, ...).
